@@ -87,11 +87,17 @@ BlockChecks(e, BB, UU) ==
         pre(x) == IF BB[x].parent = "" THEN {} ELSE UU[BB[x].parent]
         viol(x) == BlockViolations(pre(x), BB[x].txs, BB[x].h, G)
         atrv(x) == AtrViolations(pre(x), BB[x].txs, BB[x].h, G)
+        \* Known finding: a reorganisation that unwinds a retention window or more takes the tip below the
+        \* blocks the node looks at to decide that its ledger is complete (they were purged for the old tip);
+        \* the first blocks of the new chain - heights up to old tip - G + 1 - are then wound without the
+        \* ledger checks.  Violations in exactly those blocks carry the tag.
+        blind(x) == obs.tiph > 2 * G /\ BB[x].h + G <= obs.tiph + 1 /\ BB[lab].parent # obs.tip
+        tagof(x) == IF blind(x) THEN "-by-a-reorganisation-as-deep-as-the-window" ELSE ""
         c01 == IF (adopted \/ wound_then_panic) /\ rooted
-               THEN UNION {{Bad(e, PropOf(v), v \o " in " \o x) : v \in viol(x)} : x \in Rng(wound)}
+               THEN UNION {{Bad(e, PropOf(v), v \o tagof(x) \o " in " \o x) : v \in viol(x)} : x \in Rng(wound)}
                ELSE {}
         c13 == IF (adopted \/ wound_then_panic) /\ rooted
-               THEN UNION {{Bad(e, "C13", v \o " in " \o x) : v \in atrv(x)} : x \in Rng(wound)}
+               THEN UNION {{Bad(e, "C13", v \o tagof(x) \o " in " \o x) : v \in atrv(x)} : x \in Rng(wound)}
                ELSE {}
         \* the amount a rebroadcast output reappears with: value minus size of the carrying transaction times the smoothed fee per
         \* byte of the parent block (no treasury premium in this block; single-slip rebroadcasts)
